@@ -122,9 +122,9 @@ def chan_sched(rep, flavours, runs, caps, shapes=("drain", "leave"), strategies=
     return r
 
 
-def chan_mc(rep, tier):
+def chan_mc(rep, tier, kinds=("q", "rv", "os")):
     deps = ["ChanA.tla"]
-    for k in ("q", "rv", "os"):
+    for k in kinds:
         cfg = "MC_ChanA_%s%s.cfg" % (k, "_quick" if tier == "quick" else "")
         add_mc(rep, mc_cached("chan", "MC_ChanA", cfg, deps))
 
@@ -195,4 +195,40 @@ def C09(rep):
     rep.assumptions += CHAN_ASSUME
 
 
-RECIPES = {"C01": C01, "C02": C02, "C03": C03, "C04": C04, "C05": C05, "C06": C06, "C09": C09}
+def C07(rep):
+    chan_mc(rep, rep.tier, kinds=("bc",))
+    bc = ["spmc_b", "spmc_b_async"]
+    chan_seq(rep, bc, n(rep.tier, 60, 800), 70, [1, 2, 3, 5], ["mix", "batch", "close", "async"], seed_off=808, label="spmc-seq")
+    chan_sched(rep, bc, n(rep.tier, 120, 3000), [1, 2, 3], seed_off=909, label="spmc-sched")
+    rep.assumptions += CHAN_ASSUME + ["broadcast payloads are cloned per receiver; only the stored original's destruction is observed (at most once)"]
+
+
+def C08(rep):
+    add_mc(rep, mc_cached("topic", "MC_TopicA", "MC_TopicA_quick.cfg" if rep.tier == "quick" else "MC_TopicA_full.cfg",
+                          ["TopicA.tla"], timeout=1800))
+    known = C.load_known()
+    kf = [x["dev"] for x in known["findings"] if x.get("spec") == "topic"]
+    wd = C.workdir()
+    out = os.path.join(wd, "topic_%d.ndjson" % time.time_ns())
+    st = C.run_fv(["topic-seq", "--programs", n(rep.tier, 120, 2000), "--ops", 70, "--seed", rep.seed + 1212,
+                   "--caps", "1,2,3", "--out", out], timeout=3000)
+    rep.extra.setdefault("driver_stats", []).append(dict(st, driver="topic-seq"))
+    hs = C.split_histories(out)
+    r = C.validate_histories(os.path.join(C.SPECS, "topic"), "TopicTrace", "TopicTrace.cfg", hs, kf_for=lambda h: kf)
+    rep.validated += r["validated"]
+    rep.accepted += r["accepted"]
+    for k in r["known"]:
+        for d in k["devs"]:
+            rep.known.append({"finding": d, "flavour": json.loads(hs[k["history"]][0]).get("fl"), "driver": "topic-seq", "spec": "topic"})
+    for v in r["violations"]:
+        rep.violations.append({"what": "history rejected by Layer A (TopicTrace) at record %d: %s" % (v["record_index"], v["record"]),
+                               "replay": {"kind": "topic-history", "spec": "topic/TopicTrace", "driver": "topic-seq",
+                                          "first_unmatched_record": v["record_index"], "history": hs[v["history"]]}})
+    if hs:
+        rep.samples.append({"driver": "topic-seq", "history_head": [json.loads(x) for x in hs[0][:14]]})
+    os.unlink(out)
+    rep.assumptions += ["sequential histories (one thread, futures polled explicitly); publish racing with subscription changes is not scheduled: the topic module uses parking_lot/papaya directly, which the scheduler does not see",
+                        "Layer A (specs/topic/TopicA.tla) is written from the property text"]
+
+
+RECIPES = {"C08": C08, "C07": C07, "C01": C01, "C02": C02, "C03": C03, "C04": C04, "C05": C05, "C06": C06, "C09": C09}
